@@ -160,19 +160,26 @@ struct T {
 		return false;
 	}
 	// an array index far beyond the end but below the refusal threshold needs real memory: not generated (DESIGN 6/C12)
-	bool grey_zone(const std::string &p)
+	// 0: ordinary; 1: an array index that needs real memory in amounts the machine decides about (not generated);
+	// 2: an index of 2^40 or more below the overflow guards: the allocation cannot succeed here, the set must be refused
+	int far_index(const std::string &p)
 	{
 		std::vector<std::string> toks;
 		if (!ptr_tokens(p, toks) || toks.empty())
-			return false;
+			return 0;
 		PtrErr err;
 		Val *parent = ptr_eval_tokens(model, toks, toks.size() - 1, err);
 		size_t idx;
-		return parent && parent->k == Val::Arr && ptr_array_index(toks.back(), idx) && idx > parent->a.size() + 8 && idx < SIZE_MAX / 16;
+		if (!(parent && parent->k == Val::Arr && ptr_array_index(toks.back(), idx)))
+			return 0;
+		if (idx >= ((size_t)1 << 40) && idx < SIZE_MAX / 16)
+			return 2;
+		return idx > parent->a.size() + 3000 && idx < SIZE_MAX / 16 ? 1 : 0;
 	}
 	void set(const std::string &p, long id, int variant)
 	{
-		if (grey_zone(p))
+		int far = far_index(p);
+		if (far == 1)
 		{
 			if (id >= 0)
 				g_dead.insert(id); // nothing created
@@ -191,7 +198,9 @@ struct T {
 		if (nullv)
 			ctx.label("set_null_value");
 		Val m2 = model;
-		bool want = ref_set(m2, p, v);
+		bool want = far == 2 ? false : ref_set(m2, p, v);
+		if (far == 2)
+			ctx.label("set_refused_by_allocator"); // nothing may change, the value stays with the caller
 		errno = 0;
 		int rc;
 		std::string how;
@@ -417,7 +426,12 @@ void run_case(Choices &c, Ctx &ctx)
 			PtrErr e;
 			Val *b = ptr_eval(t.model, base, e);
 			size_t len = b && b->k == Val::Arr ? b->a.size() : 0;
-			p = base + "/" + str(len + c.pickn(4));
+			switch (c.pick({12, 2, 2}))
+			{
+			case 0: p = base + "/" + str(len + c.pickn(4)); break;
+			case 1: p = base + "/" + str(len + (size_t)c.range(4, 2500)); break;                     // a long run of nulls is created
+			default: p = base + "/" + str(((size_t)1 << c.range(40, 58)) + (size_t)c.range(0, 999)); break; // passes the guards, fails in the allocator
+			}
 			break;
 		}
 		case 4: p = base + "/" + std::string(KEYS[c.pickn(NKEYS)]); break; // raw (unescaped) key text: '~' may make it invalid
